@@ -268,6 +268,8 @@ def execute(db, argv, knobs, fault, directory, record=False, count_sys=False):
                     for _s in (signal.SIGTERM, signal.SIGHUP):
                         signal.signal(_s, signal.SIG_DFL)
                     signal.signal(signal.SIGINT, signal.default_int_handler)
+                    if shim:
+                        sysfault.virtual_sleep(True)
                     out = cli.run(argv)
                     if layer == "C":
                         sysfault.disarm()
@@ -298,6 +300,15 @@ def execute(db, argv, knobs, fault, directory, record=False, count_sys=False):
             plan = sqlseam.set_plan(_make_plan(knobs, fault, record))
             if lock_hook is not None:
                 plan.on_call = lock_hook
+            if shim:
+                # C-level sleeps (sqlite3_sleep in backup / busy loops) cost no wall time; a step that
+                # keeps waiting for the peer's lock sees it go away after 200 simulated sleeps, so that
+                # the single-threaded simulation cannot deadlock on "wait until the other process is done"
+                def waited(_count):
+                    if peer is not None and layer == "L":
+                        release()
+                        ex.sql_log.append(("peer", "released the lock after the step had waited"))
+                sysfault.virtual_sleep(True, 200, waited if layer == "L" else None)
             armed = False
             if shim and (count_sys or layer == "C"):
                 if layer == "C":
@@ -308,6 +319,8 @@ def execute(db, argv, knobs, fault, directory, record=False, count_sys=False):
             try:
                 ex.outcome = cli.run(argv)
             finally:
+                if shim:
+                    sysfault.virtual_sleep(False)
                 if armed:
                     ex.syscalls = sysfault.count()
                     if layer == "C":
